@@ -7,7 +7,7 @@ Definition AllCanc (l : list inst) : Prop := forall i x, nth_error l i = Some x 
 Definition C1 (s : st) : Prop :=
   forall i x, nth_error (insts s) i = Some x -> icanc x = false ->
     exists r, routine s = Some r /\ rctx (getr s r) = Some i /\ rcancel (getr s r) = Some i /\
-              kctx s <> 0 /\ iroot x = kctx s /\ irec x = r.
+              kctx s <> 0 /\ iroot x = kctx s /\ irec x = r /\ root_dead s (iroot x) = false.
 Definition C2 (s : st) : Prop :=
   forall r, routine s = Some r -> is_nil (rerr (getr s r)) = false -> AllCanc (insts s).
 Definition C3 (s : st) : Prop :=
@@ -162,17 +162,17 @@ Qed.
 (* a state that differs only in components the invariant does not read *)
 Lemma InvC_ext s s' :
   insts s' = insts s -> routine s' = routine s -> recs s' = recs s -> kctx s' = kctx s -> sv s' = sv s -> sval s' = sval s ->
-  InvC s -> InvC s'.
+  dead s' = dead s -> InvC s -> InvC s'.
 Proof.
-  intros E1 E2 E3 E4 E5 E6 [H1 [H2 [H3 [H4 [H5 H6]]]]].
-  unfold InvC, C1, C2, C3, C4, C5, C6, getr in *. rewrite E1, E2, E3, E4, E5, E6. auto 10.
+  intros E1 E2 E3 E4 E5 E6 E7 [H1 [H2 [H3 [H4 [H5 H6]]]]].
+  unfold InvC, C1, C2, C3, C4, C5, C6, getr, root_dead in *. rewrite E1, E2, E3, E4, E5, E6, E7. auto 10.
 Qed.
 
 (* ---- start_rec ---- *)
 Definition spawn (s1 : st) (r ctx : nat) (w' : option nat) : st :=
   let n := length (insts s1) in
   let x1 := getr s1 r in
-  let s2 := set_insts s1 (insts s1 ++ [{| irec := r; iwait := w'; ipcv := IGate0; icanc := false; iexit := false;
+  let s2 := set_insts s1 (insts s1 ++ [{| irec := r; iwait := w'; ipcv := IGate0; icanc := root_dead s1 ctx; iexit := false;
                                           iarg := rarg x1; iroot := ctx |}]) in
   let s3 := set_lastexit s2 (Some n) in
   setr s3 r {| rfn := rfn x1; rarg := rarg x1; rctx := Some n; rcancel := Some n; rexit := Some n;
@@ -205,7 +205,7 @@ Proof.
   intros Ha H3 H4 H5 H6 Hr Hk Hc.
   assert (Hrl : r < length (recs s1)) by (now apply H6).
   unfold spawn. set (n := length (insts s1)). set (x1 := getr s1 r).
-  set (ni := {| irec := r; iwait := w'; ipcv := IGate0; icanc := false; iexit := false; iarg := rarg x1; iroot := ctx |}).
+  set (ni := {| irec := r; iwait := w'; ipcv := IGate0; icanc := root_dead s1 ctx; iexit := false; iarg := rarg x1; iroot := ctx |}).
   set (nr := {| rfn := rfn x1; rarg := rarg x1; rctx := Some n; rcancel := Some n; rexit := Some n;
                 rerr := ONil; rsucc := false; rexited := false; rretry := None |}).
   set (s' := setr (set_lastexit (set_insts s1 (insts s1 ++ [ni])) (Some n)) r nr).
@@ -218,7 +218,7 @@ Proof.
   split; [|split; [|split; [|split; [|split]]]].
   - (* C1 *) intros i x Hx Hl. rewrite Ei in Hx. apply nth_error_snoc in Hx. destruct Hx as [[_ Hx] | [-> ->]].
     + rewrite (Ha i x Hx) in Hl. discriminate.
-    + exists r. rewrite Eg, Ek. cbn [rctx rcancel nr ni iroot irec]. repeat split; auto.
+    + exists r. rewrite Eg, Ek. cbn [rctx rcancel nr ni iroot irec icanc] in *. repeat split; auto.
   - (* C2 *) intros q Hq Hn. rewrite Er in Hq. inversion Hq; subst q. rewrite Eg in Hn. discriminate.
   - (* C3 *) intros i x Hx. rewrite Ei in Hx. apply nth_error_snoc in Hx. destruct Hx as [[_ Hx] | [-> ->]].
     + destruct (H3 i x Hx) as [G1 G2]. destruct Erecs as [L R]. split; [lia|].
@@ -228,7 +228,7 @@ Proof.
     exact (H4 Hsv r Hr).
   - (* C5 *) intros i x Hx Ho. rewrite Ei in Hx. apply nth_error_snoc in Hx. destruct Hx as [[_ Hx] | [-> ->]].
     + eapply H5; eauto.
-    + discriminate.
+    + discriminate Ho.
   - (* C6 *) intros q Hq. rewrite Er in Hq. inversion Hq; subst q. destruct Erecs; lia.
 Qed.
 
@@ -236,6 +236,13 @@ Lemma sv_cancel_inst s oi : sv (cancel_inst s oi) = sv s /\ sval (cancel_inst s 
 Proof. unfold cancel_inst. destruct oi as [i|]; [|auto]. destruct (nth_error (insts s) i); auto. Qed.
 Lemma sv_stop_timer s ot : sv (stop_timer s ot) = sv s /\ sval (stop_timer s ot) = sval s.
 Proof. unfold stop_timer. destruct ot as [t|]; [|auto]. destruct (nth_error (timers s) t) as [x|]; [|auto]. destruct (tst x); auto. Qed.
+Lemma dead_stop_timer s ot : dead (stop_timer s ot) = dead s.
+Proof. unfold stop_timer. destruct ot as [t|]; [|auto]. destruct (nth_error (timers s) t) as [x|]; [|auto]. destruct (tst x); auto. Qed.
+Lemma dead_cancel_inst s oi : dead (cancel_inst s oi) = dead s.
+Proof. unfold cancel_inst. destruct oi as [i|]; [|auto]. destruct (nth_error (insts s) i); auto. Qed.
+Lemma dead_stop_rec s r : dead (stop_rec s r) = dead s.
+Proof. unfold stop_rec. cbn [dead setr set_recs]. now rewrite dead_stop_timer, dead_cancel_inst. Qed.
+
 Lemma sv_stop_rec s r : sv (stop_rec s r) = sv s /\ sval (stop_rec s r) = sval s.
 Proof.
   unfold stop_rec. cbn [sv sval setr set_recs].
@@ -366,11 +373,33 @@ Proof.
   - split; [now apply no_routine_AllCanc|]. exact (conj H3 (conj H5 (conj Ep (conj eq_refl (conj eq_refl eq_refl))))).
 Qed.
 
-Lemma set_routine_locked_InvC s f arg :
-  InvC' s -> (sv s = true -> f <> 0 -> arg = sval s /\ sval s <> 0%N) ->
-  InvC (fst (set_routine_locked repaired s f arg)).
+(* forgetting a root context cancelled by its owner: no live instance derives from it *)
+Lemma dead_root_AllCanc s : C1 s -> root_dead s (kctx s) = true -> AllCanc (insts s).
 Proof.
-  intros H Hf. pose proof (detach_facts s H) as D. unfold set_routine_locked.
+  intros H1 Hd i x Hx. destruct (icanc x) eqn:Ec; [reflexivity|]. destruct (H1 i x Hx Ec) as (r & _ & _ & _ & _ & Er & _ & Hn).
+  rewrite Er in Hn. congruence.
+Qed.
+
+Lemma InvC'_norm s : InvC' s -> InvC' (norm s).
+Proof.
+  intros H. unfold norm. destruct (root_dead s (kctx s)) eqn:Ed; [|exact H]. destruct H as [H1 [H2 [H3 [H5 H6]]]].
+  split; [|split; [|split; [|split]]]; auto. apply AllCanc_C1. exact (dead_root_AllCanc s H1 Ed).
+Qed.
+
+Lemma InvC_norm s : InvC s -> InvC (norm s).
+Proof.
+  intros H. unfold norm. destruct (root_dead s (kctx s)) eqn:Ed; [|exact H]. destruct H as [H1 [H2 [H3 [H4 [H5 H6]]]]].
+  split; [|split; [|split; [|split; [|split]]]]; auto. apply AllCanc_C1. exact (dead_root_AllCanc s H1 Ed).
+Qed.
+
+Lemma sv_norm s : sv (norm s) = sv s /\ sval (norm s) = sval s /\ sfn (norm s) = sfn s.
+Proof. unfold norm. destruct (root_dead s (kctx s)); auto. Qed.
+
+Lemma set_routine_locked_n_InvC s f arg :
+  InvC' s -> (sv s = true -> f <> 0 -> arg = sval s /\ sval s <> 0%N) ->
+  InvC (fst (set_routine_locked_n repaired s f arg)).
+Proof.
+  intros H Hf. pose proof (detach_facts s H) as D. unfold set_routine_locked_n.
   destruct (match routine s with Some p => _ | None => (s, None, false) end) as [[s1 prevExit] wasReset].
   cbn [fst snd] in D. destruct D as [Ha [H3 [H5 [Hr [Hk [Hsv Hsval]]]]]].
   destruct (Nat.eqb_spec f 0) as [Ef|Ef]; cbn [negb].
@@ -396,9 +425,17 @@ Proof.
     apply start_rec_InvC; auto.
 Qed.
 
-Lemma restart_routine_InvC s : InvC s -> InvC (fst (restart_routine repaired s)).
+Lemma set_routine_locked_InvC s f arg :
+  InvC' s -> (sv s = true -> f <> 0 -> arg = sval s /\ sval s <> 0%N) ->
+  InvC (fst (set_routine_locked repaired s f arg)).
 Proof.
-  intros H. pose proof H as [H1 [H2 [H3 [H4 [H5 H6]]]]]. unfold restart_routine.
+  intros H Hf. unfold set_routine_locked. apply set_routine_locked_n_InvC; [now apply InvC'_norm|].
+  destruct (sv_norm s) as (A & B & _). now rewrite A, B.
+Qed.
+
+Lemma restart_routine_n_InvC s : InvC s -> InvC (fst (restart_routine_n repaired s)).
+Proof.
+  intros H. pose proof H as [H1 [H2 [H3 [H4 [H5 H6]]]]]. unfold restart_routine_n.
   destruct (routine s) as [r|] eqn:Er; [|exact H].
   set (x := getr s r). set (s1 := cancel_inst s (rcancel x)).
   assert (Ha : AllCanc (insts s1)) by (now apply cancel_current_AllCanc).
@@ -437,6 +474,9 @@ Proof.
   change (routine s3) with (routine s1). unfold s1. rewrite Cro. exact Er.
 Qed.
 
+Lemma restart_routine_InvC s : InvC s -> InvC (fst (restart_routine repaired s)).
+Proof. intros H. unfold restart_routine. now apply restart_routine_n_InvC, InvC_norm. Qed.
+
 Lemma update_sr_InvC s : InvC' s -> InvC (fst (update_sr repaired s)).
 Proof.
   intros H. unfold update_sr.
@@ -448,9 +488,9 @@ Proof.
 Qed.
 
 Lemma InvC'_ext s s' :
-  insts s' = insts s -> routine s' = routine s -> recs s' = recs s -> kctx s' = kctx s -> InvC' s -> InvC' s'.
+  insts s' = insts s -> routine s' = routine s -> recs s' = recs s -> kctx s' = kctx s -> dead s' = dead s -> InvC' s -> InvC' s'.
 Proof.
-  intros E1 E2 E3 E4 [H1 [H2 [H3 [H5 H6]]]]. unfold InvC', C1, C2, C3, C5, C6, getr in *. rewrite E1, E2, E3, E4. auto 10.
+  intros E1 E2 E3 E4 E5 [H1 [H2 [H3 [H5 H6]]]]. unfold InvC', C1, C2, C3, C5, C6, getr, root_dead in *. rewrite E1, E2, E3, E4, E5. auto 10.
 Qed.
 
 Lemma set_state_locked_InvC s v : InvC s -> InvC (fst (set_state_locked repaired s v)).
@@ -564,10 +604,10 @@ Proof.
     - rewrite nth_error_set_nth_other in Hk by exact Hne. destruct (H1 k y Hk Ec) as [q [R1 [R2 _]]].
       rewrite <- E2, Hr in R1. inversion R1; subst q. rewrite Ej in R2. inversion R2. congruence. }
   assert (Hext : forall S, insts S = insts s0 -> routine S = routine s0 -> recs S = recs s0 -> kctx S = kctx s0 ->
-                           sv S = sv s0 -> sval S = sval s0 -> forall x',
+                           sv S = sv s0 -> sval S = sval s0 -> dead S = dead s0 -> forall x',
                  rarg x' = rarg (getr s (irec x)) -> rctx x' = rctx (getr s (irec x)) -> rcancel x' = rcancel (getr s (irec x)) ->
                  InvC (do_bcast (set_cblog (setr S (irec x) x') (cblog (setr S (irec x) x') ++ repeat o (ncb (setr S (irec x) x')))))).
-  { intros S E1 E2 E3 E4 E5 E6 x' A1 A2 A3. apply (InvC_ext (setr S (irec x) x')); auto.
+  { intros S E1 E2 E3 E4 E5 E6 E7 x' A1 A2 A3. apply (InvC_ext (setr S (irec x) x')); auto.
     assert (HS : InvC S) by (apply (InvC_ext s0); auto).
     apply (InvC_setr_keep S (irec x) x' HS).
     - rewrite E3. exact Hrl.
@@ -577,6 +617,7 @@ Proof.
     - intros Hr _. apply Hall; [exact E1 | exact E2 | exact Hr]. }
   destruct (stop_timer_other s0 (rretry (getr s (irec x)))) as [T1 [T2 [T3 [T4 T5]]]].
   destruct (sv_stop_timer s0 (rretry (getr s (irec x)))) as [T6 T7].
+  pose proof (dead_stop_timer s0 (rretry (getr s (irec x)))) as T8.
   destruct (bo s0) as [[l k]|].
   - destruct (is_nil o).
     + apply (Hext (set_bo (stop_timer s0 (rretry (getr s (irec x)))) (Some (l, 0)))); auto.
@@ -606,6 +647,38 @@ Proof.
   apply start_rec_InvC; auto.
 Qed.
 
+(* the owner cancels root context c: every instance deriving from it is cancelled with it *)
+Lemma root_dead_cancel_root s c k : root_dead (cancel_root s c) k = Nat.eqb k c || root_dead s k.
+Proof. reflexivity. Qed.
+
+Lemma cancel_root_nth s c k y : nth_error (insts (cancel_root s c)) k = Some y ->
+  exists x, nth_error (insts s) k = Some x /\ irec y = irec x /\ iarg y = iarg x /\ iroot y = iroot x /\ ipcv y = ipcv x /\
+            (icanc x = true -> icanc y = true) /\ (icanc y = false -> y = x /\ iroot x <> c).
+Proof.
+  unfold cancel_root. cbn [insts set_insts]. rewrite nth_error_map. destruct (nth_error (insts s) k) as [x|]; [|discriminate].
+  cbn [option_map]. intros E. inversion E; subst y. exists x. split; [reflexivity|].
+  destruct (Nat.eqb_spec (iroot x) c) as [Ec|Ec]; cbn; repeat split; auto; try discriminate.
+Qed.
+
+Lemma cancel_root_smc s c : same_insts_more_canc (insts s) (insts (cancel_root s c)).
+Proof.
+  split; [unfold cancel_root; cbn [insts set_insts]; apply map_length|].
+  intros k y Hy. destruct (cancel_root_nth s c k y Hy) as (x & Hx & A & B & C & D & E & _). exists x. auto 10.
+Qed.
+
+Lemma cancel_root_InvC s c : InvC s -> InvC (cancel_root s c).
+Proof.
+  intros [H1 [H2 [H3 [H4 [H5 H6]]]]]. split; [|split; [|split; [|split; [|split]]]].
+  - intros k y Hy Hl. destruct (cancel_root_nth s c k y Hy) as (x & Hx & _ & _ & _ & _ & _ & Hk). destruct (Hk Hl) as [-> Hne].
+    destruct (H1 k x Hx Hl) as (r & R1 & R2 & R3 & R4 & R5 & R6 & R7). exists r. repeat split; auto.
+    rewrite root_dead_cancel_root, R7. destruct (Nat.eqb_spec (iroot x) c); [contradiction | reflexivity].
+  - intros r Hr Hn. eapply smc_AllCanc; [apply cancel_root_smc|]. exact (H2 r Hr Hn).
+  - apply (smc_C3 s); [apply cancel_root_smc | apply recs_extend_refl | exact H3].
+  - exact H4.
+  - apply (smc_C5 s); [apply cancel_root_smc | exact H5].
+  - exact H6.
+Qed.
+
 Lemma step_InvC s e : InvC s -> InvC (step repaired s e).
 Proof.
   intros H. destruct e; cbn [step].
@@ -623,14 +696,15 @@ Proof.
   - now apply timer_cb_InvC.
   - apply (InvC_ext s); auto.
   - unfold wait_section. destruct (nth_error (waiters s) a) as [w|]; [|exact H].
-    destruct (wpcv w); try exact H. destruct (getch (b s)) as [b' ch].
-    destruct (match routine s with Some r => _ | None => _ end); [|destruct (wcanc w)]; apply (InvC_ext s); auto.
+    destruct (wpcv w); try exact H. pose proof (InvC_norm s H) as Hn. unfold wait_sect_at. destruct (getch (b (norm s))) as [b' ch].
+    destruct (match routine (norm s) with Some r => _ | None => _ end); [|destruct (wcanc w)]; apply (InvC_ext (norm s)); auto.
   - unfold wait_wake. destruct (nth_error (waiters s) a) as [w|]; [|exact H]. destruct (wpcv w); try exact H.
     destruct (closed (b s) ch); [apply (InvC_ext s); auto | exact H].
   - unfold wait_cancel. destruct (nth_error (waiters s) a) as [w|]; [|exact H].
     destruct (wpcv w); try exact H; apply (InvC_ext s); auto.
   - unfold wait_errch. destruct (nth_error (waiters s) a) as [w|]; [|exact H].
     destruct (wpcv w); try exact H; apply (InvC_ext s); auto.
+  - now apply cancel_root_InvC.
 Qed.
 
 Lemma init_InvC v c n sc : InvC (init v c n sc).
@@ -651,9 +725,18 @@ Theorem live_instance_is_current v c n sc es i x :
             (sv s = true -> iarg x = sval s /\ sval s <> 0%N).
 Proof.
   intros s Hx Hl. destruct (run_InvC v c n sc es) as [H1 [_ [H3 [H4 _]]]]. fold s in H1, H3, H4.
-  destruct (H1 i x Hx Hl) as [r [R1 [R2 [R3 [R4 [R5 R6]]]]]]. exists r. repeat split; auto.
+  destruct (H1 i x Hx Hl) as [r [R1 [R2 [R3 [R4 [R5 [R6 R7]]]]]]]. exists r. repeat split; auto.
   - destruct (H3 i x Hx) as [_ G]. rewrite G, R6. exact (proj1 (H4 H r R1)).
   - exact (proj2 (H4 H r R1)).
+Qed.
+
+(* the root context a live instance derives from has not been cancelled by its owner *)
+Theorem live_instance_root_alive v c n sc es i x :
+  let s := run repaired (init v c n sc) es in
+  nth_error (insts s) i = Some x -> icanc x = false -> root_dead s (iroot x) = false /\ root_dead s (kctx s) = false.
+Proof.
+  intros s Hx Hl. destruct (run_InvC v c n sc es) as [H1 _]. fold s in H1.
+  destruct (H1 i x Hx Hl) as [r [_ [_ [_ [_ [R5 [_ R7]]]]]]]. split; [exact R7 | now rewrite <- R5].
 Qed.
 
 Theorem at_most_one_live v c n sc es : cnt live (insts (run repaired (init v c n sc) es)) <= 1.
